@@ -15,6 +15,13 @@ fn enc(v: &dyn ValueView) -> J {
     if let Some(a) = v.as_array() {
         return json!({"k": "arr", "a": a.values().map(enc).collect::<Vec<_>>()});
     }
+    if let Some(o) = v.as_object() {
+        let mut m = serde_json::Map::new();
+        for (k, x) in o.iter() {
+            m.insert(k.to_string(), enc(x));
+        }
+        return json!({"k": "obj", "o": m});
+    }
     if let Some(s) = v.as_scalar() {
         return match s.type_name() {
             "whole number" => json!({"k": "int", "n": s.to_integer().unwrap_or(0)}),
@@ -75,7 +82,24 @@ pub fn main(args: &[String]) -> i32 {
             3 => { arr.sort_by(|a, b| a.to_kstr().cmp(&b.to_kstr())); let h = arr.len() / 2; arr[h..].reverse(); }
             _ => {}
         }
-        let name = filters[case % filters.len()];
+        // every third case: objects that share (or lack) the sort key and differ in another field
+        let objects = case % 3 == 2;
+        if objects {
+            arr = (0..len)
+                .map(|i| {
+                    let mut o = liquid::Object::new();
+                    match rng.below(5) {
+                        0 => {}
+                        1 => { o.insert("p".into(), Value::Nil); }
+                        _ => { o.insert("p".into(), Value::scalar(rng.below(3) as i64)); }
+                    }
+                    o.insert("id".into(), Value::scalar(i as i64));
+                    Value::Object(o)
+                })
+                .collect();
+        }
+        let obj_filters = ["sort: 'p'", "sort_natural: 'p'", "compact: 'p'", "map: 'p'", "where: 'p'", "uniq", "reverse", "where: 'p', 1"];
+        let name = if objects { obj_filters[(case / 3) % obj_filters.len()] } else { filters[case % filters.len()] };
         let input = Value::Array(arr);
         let globals = liquid::object!({"in": input.clone()});
         let src = format!("{{% assign r = in | {name} %}}");
@@ -92,7 +116,15 @@ pub fn main(args: &[String]) -> i32 {
             Err(_) => json!({"k": "panic"}),
         };
         let _ = globals;
-        let ev = json!({"e": "Eval", "f": {"n": name, "a": []}, "in": enc(&input)["a"], "out": outj});
+        // "sort: 'p'" -> {"n": "sort", "a": [{"k":"str","s":"p"}]}
+        let (fname, fargs): (&str, Vec<J>) = match name.split_once(": ") {
+            None => (name, vec![]),
+            Some((n, rest)) => (n, rest.split(", ").map(|a| {
+                if let Some(t) = a.strip_prefix('\'') { json!({"k": "str", "s": t.trim_end_matches('\'')}) }
+                else { json!({"k": "int", "n": a.parse::<i64>().unwrap_or(0)}) }
+            }).collect()),
+        };
+        let ev = json!({"e": "Eval", "f": {"n": fname, "a": fargs}, "in": enc(&input)["a"], "out": outj});
         let _ = writeln!(f, "{}", ev);
         events += 1;
         if len > 20 { nontrivial += 1; }
